@@ -1,9 +1,12 @@
 #!/bin/bash
 # usage: tools/try_mutant.sh <patch.diff> <property>...   (applies to /repo, runs checks, reverts)
 patch="$1"; shift
+# the evidence files describe the unchanged tree: keep them out of reach of these runs
+save=$(mktemp -d); cp -a /verif/evidence/. "$save"/ 2>/dev/null
 git -C /repo apply "$patch" || { echo "patch does not apply"; exit 2; }
 for p in "$@"; do
   ./check "$p" --tier quick 2>&1 | grep -E "VIOLATION|KNOWN|violations" 
 done
 git -C /repo checkout -- .
+cp -a "$save"/. /verif/evidence/ 2>/dev/null; rm -rf "$save"
 git -C /repo status --short
